@@ -104,3 +104,24 @@ _p("C08", "other",
    "Static: orphan sweep ordering; proved: ids cleared when a stroked shape is split (C04). Unique ids / no dangling url / no unused gradient on whole "
    "documents is checked by a reference-graph oracle on sharing patterns (bounded, labelled).",
    [LXML, CPY])
+
+_p("C01", "other",
+   "Proved: path-data target forms (absolute, no shorthand, no H/V, no arcs after arcs_to_cubics; Skia emits only M/L/Q/C/Z), kept-group attributes and "
+   "opacity range, stroke reset, nonzero marking, walk/printing; static: pipeline order, argument binding of ndigits / allow_text / drop_unsupported incl. the "
+   "CLI, gate raises on violations, root cleanup deletes every inheritable attribute. That the tree surgery of _simplify leaves exactly one defs of "
+   "gradients and only g/path is NOT decided deductively: an independent grammar oracle on generated documents x options is the bounded part.",
+   [LXML, PATHOPS, BRIDGE, CPY])
+_p("C02", "other",
+   "Proved: the affine algebra and viewport mapping (C11), shape->path outlines (C09), the pathops transform glue; the composition order at the call "
+   "sites (element CTM, use, nested svg) is checked on the real code over a tree model. The rendering equivalence of whole documents is the bounded part: "
+   "an independent reference evaluator compares composited colours at sample points of generated structural documents.",
+   [LXML, PATHOPS, CPY, MATH])
+_p("C03", "other",
+   "Proved relative to pathops: intersection/union glue folds operands each under its own rule (C13), clip intersection pairs the shape with its fill-rule "
+   "and clips with clip-rule (static), transform before clip (static). Whole-document clip semantics (ancestor stacks, nested clipPaths, use) is the bounded "
+   "part with the independent reference evaluator.",
+   [LXML, PATHOPS, CPY])
+_p("C06", "other",
+   "Proved: translation decomposition and affine algebra (C11), as_user_space_units / gradient translation folding lemmas where built; whole-document "
+   "gradient colour equivalence at interior points is the bounded part with an independent gradient evaluator.",
+   [LXML, PATHOPS, CPY, MATH])
